@@ -660,7 +660,7 @@ func init() {
 		return v[s.idx("nvias")] == 0 && s.Val(v, "listeners") != "udp+tcp"
 	}
 	addCheck(&Check{Flows: []flowOracle{flowViaRR}, ID: "C06", Level: "exploration",
-		Rule:   "complete product: relaying path x how the next hop was learned (not / earlier request from it / listed in an earlier Via by address or by name or in a Via line detached from the first Via block / through the TCP listener / through the other listens entry / re-learned) x {fresh, the same listener already relayed a request to that hop before it was learned} x must-record-route x listener set x 0-4 (thorough 0-6) existing Via entries in 4 layouts x 0-3 (thorough 0-4) Record-Route entries in layouts x position of Record-Route among the other headers x From/Max-Forwards order; each on a fresh world with the learning history replayed first; plus a freshness run relaying 20000 requests through one world; plus a run with requests from 6000 (thorough 40000) distinct peers in which a next hop first seen after every 1000 peers must still be learned; plus an in-dialog request whose pinned TCP backend has gone away (reset, refusing) under 4 Record-Route settings; non-trivial = the request was relayed",
+		Rule:   "connection churn on a TCP listener with TCP backends (32 variants: visitors, garbage, caller reconnecting, backend connections reset) judged against the first request; complete product: relaying path x how the next hop was learned (not / earlier request from it / listed in an earlier Via by address or by name or in a Via line detached from the first Via block / through the TCP listener / through the other listens entry / re-learned) x {fresh, the same listener already relayed a request to that hop before it was learned} x must-record-route x listener set x 0-4 (thorough 0-6) existing Via entries in 4 layouts x 0-3 (thorough 0-4) Record-Route entries in layouts x position of Record-Route among the other headers x From/Max-Forwards order; each on a fresh world with the learning history replayed first; plus a freshness run relaying 20000 requests through one world; plus a run with requests from 6000 (thorough 40000) distinct peers in which a next hop first seen after every 1000 peers must still be learned; plus an in-dialog request whose pinned TCP backend has gone away (reset, refusing) under 4 Record-Route settings; non-trivial = the request was relayed",
 		Assume: []string{"two-listener worlds give both entries the same must-record-route setting (the statement does not say whose setting counts)", "next hop named as it was learned (address literal or the same host name): equivalence of names and addresses for learning is not prescribed"},
 		Run: func(c *Ctx) {
 			c06Spec.Run(c)
